@@ -66,8 +66,9 @@ Ltac tie_tail H :=
   let U := fresh "U" in let sg := fresh "sg" in let V := fresh "V" in
   intros [[U sg] V]; cbv zeta; rewrite ?(kl_zero N L), ?(kl_negone N L); cbv;
   match goal with |- context [if ?c then _ else _] => destruct c end; reflexivity.
+(* (a loop written as a range-for is already a fold over the list: the [try]) *)
 Ltac tie_estimate_corr def corr :=
-  cbv delta [def]; cbv beta; loop_over corr (O, O); split_state; loop_over corr (O, O); split_state; tie_tail (eq_refl 0%nat).
+  cbv delta [def]; cbv beta; try loop_over corr (O, O); split_state; try loop_over corr (O, O); split_state; tie_tail (eq_refl 0%nat).
 Ltac tie_estimate_aligned def src tgt H :=
   cbv delta [def]; cbv beta; split_state; split_state; loop_over2 src tgt H; split_state; tie_tail H.
 
